@@ -77,6 +77,7 @@ def run(ctx, col, tier):
     col.guard(dtype_rule, ctx, col)
     col.guard(keynorm, ctx, col)
     col.guard(axes, ctx, col)
+    col.guard(raster, ctx, col)
 
 
 def dtype_rule(ctx, col):
@@ -224,10 +225,25 @@ def axes(ctx, col):
               "reader does not transpose(argsort([AXES_ORDER[c] for c in axes]))", stmt="reader")
     if isinstance(table, dict) and all(c in table for c in declared):
         orders = [table[c] for c in declared]
-        perm = sorted(range(len(orders)), key=lambda i: orders[i])
-        back = "".join(declared[i] for i in perm)
-        col.check(back == CANON, "R-AXES", r.qualname, r.loc(), "reader maps the writer's axes string back to (X,Y,Z,C)",
-                  f"{declared} -> {back}", f"{declared} is read back as {back}", stmt="roundtrip")
+        tr = [n for n in own_nodes(r) if isinstance(n, ast.Call) and isinstance(n.func, ast.Attribute) and n.func.attr == "transpose" and len(n.args) == 1]
+        od = [n for n in own_nodes(r) if isinstance(n, ast.Assign) and isinstance(n.targets[0], ast.Name) and
+              norm_src(n.value) in ("[AXES_ORDER[c] for c in axes]", "[AXES_ORDER[a] for a in axes]", "list(map(AXES_ORDER.get, axes))")]
+        perm = None
+        if len(tr) == 1 and len(od) == 1:
+            oname = od[0].targets[0].id
+            arg = norm_src(tr[0].args[0])
+            if arg in (f"np.argsort({oname})", f"{oname}.argsort()", f"numpy.argsort({oname})"):
+                perm = sorted(range(len(orders)), key=lambda i: orders[i])
+            elif arg == oname:
+                perm = list(orders)
+        if perm is None:
+            col.unresolved("R-AXES", r.qualname, r.loc(), "reader maps the writer's axes string back to (X,Y,Z,C)",
+                           "the permutation the reader applies is not of a recognised form", stmt="roundtrip")
+        else:
+            back = "".join(declared[i] for i in perm)
+            col.check(back == CANON, "R-AXES", r.qualname, r.loc(tr[0]), "reader maps the writer's axes string back to (X,Y,Z,C)",
+                      f"{declared} -> {back}", f"`{norm_src(tr[0])[:60]}` turns a file written as {declared} into {back}, not {CANON} "
+                      f"(transpose(p) puts input axis p[k] at position k; the inverse permutation argsort(p) is needed)", stmt="roundtrip", definite=True)
     ok = 'axes = "ZXYC" if imgs.ndim == 4 else "ZXY"'.replace('"', "'") in src.replace('"', "'")
     col.shape(ok, "R-AXES", r.qualname, r.loc(), "files without usable axes metadata are taken as ZXY(C), the writer's layout", "",
               "fallback axes differ from the writer's layout", stmt="fallback")
@@ -246,3 +262,84 @@ def axes(ctx, col):
     ok = "offset = offset or stride / 2" in src and "_tp3f(coord_min + offset)" in src
     col.shape(ok, "R-AXES", g.qualname, g.loc(), "samples are taken at voxel centres (half a voxel from the lower corner)", "",
               "sampling offset is not stride / 2 from coord_min", stmt="half-voxel")
+
+
+# ------------------------------------------------------------------ rasteriser
+_ROUNDERS = {"floor": "floor", "ceil": "ceil", "trunc": "trunc", "fix": "trunc", "round": "round", "rint": "round", "around": "round"}
+
+
+def _rounding(e: ast.AST) -> set:
+    out = set()
+    for n in ast.walk(e):
+        if isinstance(n, ast.Call):
+            fn = (dotted(n.func) or "").split(".")[-1]
+            if fn in _ROUNDERS:
+                out.add(_ROUNDERS[fn])
+            if fn == "int" or (isinstance(n.func, ast.Attribute) and n.func.attr == "astype" and n.args and
+                               any(w in norm_src(n.args[0]) for w in ("int", "long"))):
+                out.add("trunc")
+    return out
+
+
+def raster(ctx, col):
+    repo = ctx.repo
+    T = "swcgeom.transforms.image_stack.ToImageStack"
+    t, g, sc, call = (repo.get_def(f"{T}.{q}") for q in ("transform", "_get_samplers", "_get_scene", "__call__"))
+    col.text_group("R-AXES", t.qualname, t, [
+        ("the scene is built from the tree", ["scene = self._get_scene(x)"], "r:scene"),
+        ("node positions and radii", ["xyz, r = x.xyz(), x.r().reshape(-1, 1)"], "r:xyzr"),
+        ("the box starts at the floor of the lowest sphere bound", ["coord_min = np.floor(np.min(xyz - r, axis=0))"], "r:min"),
+        ("... and ends at the ceiling of the highest", ["coord_max = np.ceil(np.max(xyz + r, axis=0))"], "r:max"),
+        ("one sampler per z slice over that box", ["samplers = self._get_samplers(coord_min, coord_max)"], "r:samplers"),
+        ("each slice is sampled from the scene", ["voxel = sampler.sample(scene)"], "r:sample"),
+        ("a frame is the first colour channel of the single z layer, as 0/255", ["frame = (255 * voxel[..., 0, 0]).astype(np.uint8)"], "r:frame"),
+        ("frames are produced in z order", ["yield frame"], "r:yield")], fixed=("x",))
+    col.text_group("R-AXES", g.qualname, g, [
+        ("the step is the resolution", ["stride = self.resolution"], "r:stride"),
+        ("samples are taken at voxel centres: half a voxel from the lower corner, per axis", ["offset = offset or stride / 2"], "r:half"),
+        ("lower corner + offset", ["xmin, ymin, zmin = _tp3f(coord_min + offset)"], "r:lo"),
+        ("upper corner", ["xmax, ymax, zmax = _tp3f(coord_max)"], "r:hi"),
+        ("slices start at the first z centre", ["z = zmin"], "r:z0"),
+        ("one sampler per z centre below the upper corner, one layer thick, stepping by the z resolution",
+         ["while z < zmax:\n    yield RangeSampler((xmin, ymin, z), (xmax, ymax, z + stride[2] - eps), _tp3f(stride))\n    z += stride[2]"], "r:loop")],
+        fixed=("coord_min", "coord_max", "offset", "RangeSampler", "_tp3f"))
+    col.text_group("R-AXES", sc.qualname, sc, [
+        ("one rounded cone per (parent, child) edge with both positions and both radii", ["sdf = RoundCone(_tp3f(n.xyz()), _tp3f(c.xyz()), n.r, c.r).into()"], "r:cone"),
+        ("every cone is added to the scene", ["scene.add_object(SDFObject(sdf, material).into())"], "r:add"),
+        ("the node is handed to its parent", ["return n"], "r:hand"),
+        ("bottom-up over the whole tree", ["x.traverse(leave=leave)"], "r:walk")], fixed=("x", "RoundCone", "SDFObject", "_tp3f"))
+    col.text_group("R-AXES", call.qualname, call, [
+        ("frames (one per z) are stacked along axis 0: (Z, X, Y)", ["return np.stack(list(self.transform(x, verbose=False)), axis=0)"], "r:stack")], fixed=("x",))
+    # rounding direction of the bounding box
+    for a in own_nodes(t):
+        if isinstance(a, ast.Assign) and len(a.targets) == 1 and isinstance(a.targets[0], ast.Name) and a.targets[0].id in ("coord_min", "coord_max"):
+            fnames = {(dotted(c.func) or "").split(".")[-1] for c in ast.walk(a.value) if isinstance(c, ast.Call)}
+            if not ({"min", "max", "amin", "amax"} & fnames):
+                continue  # the `ranges` arm
+            nm, want = a.targets[0].id, ("floor" if a.targets[0].id == "coord_min" else "ceil")
+            got = _rounding(a.value)
+            if got and want not in got:
+                col.bad("R-AXES", t.qualname, t.loc(a), f"the box bound {nm} is rounded outward ({want})",
+                        f"`{norm_src(a)[:100]}` rounds by {sorted(got)} instead of {want}: for a bound with a fractional part "
+                        f"({'negative, ' if want == 'floor' else ''}e.g. {'-1.5' if want == 'floor' else '1.5'}) the box ends inside the tree and the part beyond it is cut off",
+                        stmt=f"r:round:{nm}", definite=True)
+    # a per-axis triple built from the components of another per-axis triple: component k comes from component k
+    for d in (t, g):
+        triples = {}
+        for a in own_nodes(d):
+            if isinstance(a, ast.Assign) and isinstance(a.targets[0], ast.Tuple) and len(a.targets[0].elts) == 3 \
+                    and all(isinstance(e, ast.Name) for e in a.targets[0].elts) and not isinstance(a.value, ast.Tuple):
+                for k, e in enumerate(a.targets[0].elts):
+                    triples[e.id] = (k, norm_src(a.value))
+        for lit in own_nodes(d):
+            if isinstance(lit, (ast.Tuple, ast.List)) and len(lit.elts) == 3 and isinstance(getattr(lit, "ctx", None), ast.Load):
+                pos = []
+                for e in lit.elts:
+                    used = {triples[n.id] for n in ast.walk(e) if isinstance(n, ast.Name) and n.id in triples}
+                    pos.append(used)
+                if all(len(u) == 1 for u in pos):
+                    ks = [next(iter(u)) for u in pos]
+                    if len({src for _, src in ks}) == 1 and [k for k, _ in ks] != [0, 1, 2]:
+                        col.bad("R-AXES", d.qualname, d.loc(lit), "per-axis quantities keep their axis",
+                                f"`{norm_src(lit)}` builds an (x, y, z) triple from components {[k for k, _ in ks]} of `{ks[0][1]}`: "
+                                f"an axis gets another axis' value, which differs as soon as the resolution is anisotropic in those axes", stmt="r:axis-mix", definite=True)
